@@ -13,6 +13,7 @@ void gx_add_fault(int site, int tid, int k, int sticky, int err, int mode, int64
 void gx_common_cfg(int n);
 void gx_absent(int pct);
 void gx_eintr(int nloops, int pct);
+void gx_regfail(void);
 int64_t gx_delta(void);
 uint64_t gx_u64(void);
 
@@ -187,6 +188,7 @@ static void gen_wait(int tier)
 	}
 	gx_absent(8);
 	gx_eintr(nloops, 10);
+	gx_regfail();
 }
 
 /* ---- C19: popen ------------------------------------------------------------------------- */
@@ -229,6 +231,7 @@ static void gen_popen(int tier)
 	}
 	gx_absent(8);
 	gx_eintr(nloops, 15);
+	gx_regfail();
 }
 
 /* ---- C12 / C13: work pools and iv_thread ---------------------------------------------------- */
@@ -308,6 +311,7 @@ static void gen_pool(const char *prop, int tier)
 	}
 	gx_absent(8);
 	gx_eintr(nloops, 8);
+	gx_regfail();
 }
 
 int gen_ext3(struct plan *p, const char *scenario, const char *prop, int tier);
